@@ -179,7 +179,7 @@ def generate(seed, n, twin=False, jobs=8, tag='g'):
     k = 0
     while start < n:
         cnt = min(per, n - start)
-        tasks.append((seed * 1000003 + k * 7919 + (17 if twin else 0), start, cnt, 5, twin))
+        tasks.append((seed * 1000003 + k * 7919 + (17 if twin else 0), start, cnt, 2 if twin else 5, twin))
         start += cnt
         k += 1
     with multiprocessing.Pool(min(jobs, len(tasks))) as pool:
@@ -238,7 +238,7 @@ def ensure_corr(seed, tier, build):
     work = os.path.join(CACHE, 'work')
     os.makedirs(work, exist_ok=True)
     n_main = 160 if tier == 'quick' else 2400
-    n_twin = 64 if tier == 'quick' else 640
+    n_twin = 96 if tier == 'quick' else 640
     n_wrap = 48 if tier == 'quick' else 480
     res = {'seed': seed, 'tier': tier, 'disagreements': [], 'violations': [], 'stats': {}, 'samples': [], 'errors': []}
     corp = corpus_histories()
@@ -309,8 +309,18 @@ def ensure_corr(seed, tier, build):
             vb, bb = final_state(HB)
             ntw += 1
             fa, fb = (va or {}).get(('flags', None)), (vb or {}).get(('flags', None))
+            n_int = sum(1 for r in HA.recs if r['status'] == 'ok' and r['ret'] == [1])
+            if fb and fb[1:] == [1, 1, 1] and fa != fb and n_int > 0:
+                # every step of the interrupted run ends with an unlimited call by the owner at the
+                # same block as the single-call run: if the single-call run finished all steps and
+                # the interrupted one did not, a resumed operation failed or stalled
+                res['violations'].append({'prop': 'C04', 'idx': len(HA.calls) - 1, 'clause': 'twin_unfinished',
+                                          'msg': 'the single-call run completes every step (flags %r) but the interrupted run does not (flags %r)' % (fb, fa),
+                                          'run': 'twinA', 'hid': h, 'variant': HA.variant, 'profile': 'dev', 'call': '',
+                                          'twin': hsB[h]})
+                continue
             if fa != fb or not fa or fa[1:] != [1, 1, 1]:
-                incomplete += 1      # a step was left unfinished in one of the runs: not comparable
+                incomplete += 1      # a step was left unfinished in both runs: not comparable
                 continue
             if HA.variant == 'ngt':
                 # the NFT draw of the combined step starts in the call in which the guaranteed
